@@ -81,6 +81,17 @@ CLAIMED = {
         note="The event-trace semantics of the action language is hand-written (Model/Facade.v) and tied by correspondence; buffer identity "
              "and decode-after-execute are observed on the implementation, not modelled.",
         technique="Coq proof by reflection over regenerated action lists + vm_compute correspondence"),
+    "C15": dict(
+        text="Machine-checked proof (Coq) by induction over ALL sequences of execute / replug / unplug / close-failure / close / exit "
+             "events: with detection on every command goes through a handle on the node that exists at that moment, a vanished node is an "
+             "error, after an execute the device holds a handle on the current node also when closing the stale handle failed; with "
+             "detection off the original handle is kept; every handle is released at most once and close()/__exit__ release the current "
+             "one. The shape of execute()'s replug prologue and of _is_replugged/open/close/__exit__ is REGENERATED and checked; the state "
+             "machine is tied by 2000 event sequences run against the real SCSIDevice on a real file system under /dev/shm.",
+        ref="DESIGN.md §4 C15",
+        note="Partial: OS behaviour (inode reuse, race between stat and open) is outside the model; the file-system contract is listed in the "
+             "evidence assumptions. ISCSIDevice connect/disconnect pairing is exercised by the C19 and C07 drivers, not proved here.",
+        technique="Coq invariant proof by induction over event histories + vm_compute correspondence on a real file system"),
     "C16": dict(
         text="Machine-checked (Coq): the decision table of __init_opcode, the INQUIRY data table and the opcode sets are REGENERATED; complete "
              "enumeration inside the kernel over all 32 device types x 5 current sets shows SBC for 0/4/7, SSC for 1, MMC for 5, SMC for 8 and "
@@ -90,6 +101,16 @@ CLAIMED = {
         ref="DESIGN.md §4 C16",
         note="Both transports share the facade code path; the histories run over a recording device object (the facade works over any device object).",
         technique="Coq: kernel enumeration over regenerated tables + history lemma + vm_compute correspondence"),
+    "C19": dict(
+        text="Machine-checked proof (Coq) for ALL device strings, access modes and initiator names x the four presence combinations of the "
+             "bindings: init_device and the device constructors return the matching class opened on exactly the requested path / URL, or "
+             "refuse with NotImplementedError before any file or connection is opened — over the prefix tests and constructor guards "
+             "REGENERATED from utils/__init__.py, scsi_device.py, iscsi_device.py (slice length = literal length is checked, so [:n]== is a "
+             "prefix test). The import half runs in four fresh interpreters (import hook hides/provides the stub bindings): all 59 modules "
+             "import, commands build/encode/decode and the facade works, identically; 2988 dispatch cases are compared with the model.",
+        ref="DESIGN.md §4 C19",
+        note="Partial: Python's import machinery is exercised, not modelled; the bindings are stand-ins.",
+        technique="Coq proof over regenerated dispatch tables + 4-configuration correspondence"),
     "C10": dict(
         text="Machine-checked proof (Coq 8.16.1) of the codec laws for every buffer size, every contiguous mask at any "
              "alignment, every offset, every in-range value, every field order and arbitrary prior contents "
